@@ -88,6 +88,7 @@ type c13World struct {
 	reachable bool
 	lastOut   string
 	lastErr   string
+	agg       c13Agg
 	// export → validate → init → export2 pipeline state
 	gen      *c13Gen
 	list1    string
@@ -110,6 +111,7 @@ func newC13World() *c13World {
 	ctx := a.BaseApp.NewContext(false, tmproto.Header{Height: 1, ChainID: "teleport_9000-1", Time: time.Unix(1700000000, 0)})
 	w := &c13World{app: a, base: ctx}
 	w.reset()
+	w.aggSetup()
 	return w
 }
 
@@ -593,6 +595,8 @@ func (w *c13World) apply(r *Rec, op string) (out string) {
 		write()
 		r.Count("rvparams." + f[1])
 		return "ok"
+	case "aggprop", "aggkill", "aggconvert", "mpair", "mdelpair":
+		return w.applyAggOp(r, f)
 	case "update", "bscupdate", "plant", "unplant":
 		return w.applyUpdateOp(r, f)
 	case "rawx":
@@ -835,6 +839,10 @@ func c13Slug(msg string) string {
 			return "type-mismatch:" + rest[0] + "-vs-" + rest[len(rest)-1]
 		}
 		return "type-mismatch"
+	case strings.Contains(msg, "denomination duplicated on genesis"):
+		return "aggregate-duplicate-denomination"
+	case strings.Contains(msg, "ERC20 contract duplicated on genesis"):
+		return "aggregate-duplicate-contract"
 	case strings.Contains(msg, "per block reward"):
 		return "rvesting-per-block-reward"
 	case strings.Contains(msg, "height cannot be zero"):
@@ -1192,7 +1200,7 @@ type c13Client struct {
 
 // create / toggle are proposal-level operations: they may be rejected (ClientState.Validate, Initialize)
 func c13MayFail(op, out string) bool {
-	return out == "err" && (strings.HasPrefix(op, "create ") || strings.HasPrefix(op, "toggle ") || strings.HasPrefix(op, "upgrade ") || strings.HasPrefix(op, "rvparams ") || strings.HasPrefix(op, "update ") || strings.HasPrefix(op, "bscupdate "))
+	return out == "err" && (strings.HasPrefix(op, "create ") || strings.HasPrefix(op, "toggle ") || strings.HasPrefix(op, "upgrade ") || strings.HasPrefix(op, "rvparams ") || strings.HasPrefix(op, "update ") || strings.HasPrefix(op, "bscupdate ") || strings.HasPrefix(op, "aggprop ") || strings.HasPrefix(op, "aggconvert "))
 }
 
 type c13Fix struct {
@@ -1977,6 +1985,8 @@ func c13WriteCorpus(t *testing.T, r *Rec, dir string) {
 		{"real-bsc-updates", func(e func(string), tl func(string)) { w.genBscReal(r, e, tl) }},
 		{"real-bsc-across-two-switches", func(e func(string), tl func(string)) { w.genBscRealAt(r, e, tl, 20, 27, true) }},
 		{"real-tm-updates", func(e func(string), tl func(string)) { w.genTmReal(r, e, tl) }},
+		{"real-aggregate-proposals", func(e func(string), tl func(string)) { w.genAggReal(r, e, tl) }},
+		{"real-aggregate-every-path", func(e func(string), tl func(string)) { w.genAggScript(r, e, tl) }},
 		{"real-eth-updates", func(e func(string), tl func(string)) { w.genEthReal(r, e, tl) }},
 	} {
 		var ops []string
@@ -2073,13 +2083,15 @@ func TestC13(t *testing.T) {
 				}
 				r.Count(c13PhaseKey(phase))
 			}
-			switch (c / 8) % 3 {
+			switch (c / 8) % 5 {
 			case 0:
 				w.genBscReal(r, emit, tail)
 			case 1:
 				w.genTmReal(r, emit, tail)
-			default:
+			case 2:
 				w.genEthReal(r, emit, tail)
+			default:
+				w.genAggReal(r, emit, tail) // the registry through its real proposal / message handlers
 			}
 			continue
 		}
